@@ -39,7 +39,9 @@ func (c *validatorListConstructor) buildList(node schema.Node) {
 		c.appendTypeValidators(names)
 
 		if constr := node.Constraint(constraint.NullableConstraintType); constr != nil {
-			c.list = append(c.list, newLiteralValidator(node, c.parent))
+			// Only the null: a literal validator for this node would take any value
+			// of the example's kind, whatever the referenced types say about it.
+			c.list = append(c.list, newNullValidator(node, c.parent))
 		}
 	} else {
 		c.appendNodeValidators(node)
